@@ -12,3 +12,8 @@ claim("C16", "DESIGN.md 5 C16, A.5",
  "Seeded search over orders of {arrive, cancel, finish, resume-of-a-parked-caller} for up to 5 requests on 1-2 paths with limits 1-3, on the real LimitParallelRequests with a gate-controlled do(); every quiescent point is compared with a per-path reference model (in-flight set, FIFO of waiters), limits are checked as bounds, and idleness (empty queues, immediate admission of a fresh request) at the end. Sampled exploration of a small space; evidence, not proof.",
  "Trusts the 40-line reference model; the cross-path total limit is checked as a bound / end-state only; a caller cancelled while parked before its select has two legal outcomes (run marked racy, order rule not applied).",
  "deterministic simulation: seeded event-order search with park points, per-phase comparison against a FIFO limiter model")
+
+claim("C05", "DESIGN.md 5 C05, A.2",
+ "Seeded search over duplication / reordering / loss patterns of CON and NON requests with copies re-sent around 0, ACK_TIMEOUT and the 247 s lifetime boundary (+-1 ns / 1 ms) on a fake clock, message IDs incl. the endpoint's own outgoing IDs, three handler behaviours, concurrent client-role traffic, and copies delivered while the first is held inside the per-message-ID section (park point + reader-loop replacement), on the real udp/client.Conn + Session + UDPConn. Handler executions and the replies on the wire are judged against a MID -> (first seen, first reply) reference model at the end of each run. Evidence, not proof.",
+ "Trusts synctest's fake clock, the harness codec and model; exactly-at-boundary copies are accepted either way; the boundary is probed only with instantaneous handlers; one peer address per run (per-peer separation of the cache is exercised by C10).",
+ "deterministic simulation: seeded fault/time search with de-duplication reference model over handler log and wire replies")
